@@ -91,6 +91,9 @@ def stop (m : Psm α) (fadeOut : Tween α) : Psm α :=
 /-- mirrors: PlaybackStateManager::mark_as_stopped -/
 def markAsStopped (m : Psm α) : Psm α := { m with state := .stopped }
 
+/-- mirrors: PlaybackStateManager::mark_as_paused -/
+def markAsPaused (m : Psm α) : Psm α := { m with state := .paused }
+
 /-- mirrors: PlaybackStateManager::update — returns (new manager, changed_playback_state) -/
 def update (m : Psm α) (dt : α) (info : Info α) : Psm α × Bool :=
   let r := m.fade.update tw32 dt info
